@@ -746,7 +746,35 @@ func c01LaneC(c *Ctx, root *Rng, n int) []*c01Case {
 		r := root.Fork(uint64(i))
 		files := baseFiles()
 		cs := &c01Case{Lane: "C-configuration", Files: files}
-		switch r.Intn(5) {
+		switch r.Intn(6) {
+		case 5: // entry-file project mode (luahelper.json ProjectFiles) over require graphs with cycles, self-requires and diamonds
+			edges := map[string][]string{"m": {"sub.mod"}, "sub.mod": nil, "sub.other": nil, "leaf": nil}
+			names := []string{"m", "sub.mod", "sub.other", "leaf"}
+			for k := 0; k < r.Range(1, 5); k++ {
+				from, to := r.Pick(names), r.Pick(names) // from == to: a module that requires itself
+				edges[from] = append(edges[from], to)
+			}
+			for _, nm := range names {
+				var sb strings.Builder
+				for k, to := range edges[nm] {
+					call := r.Pick([]string{"require(\"%s\")", "require \"%s\"", "require('%s')"})
+					if r.Chance(1, 3) {
+						fmt.Fprintf(&sb, "local function lazy%d()\n  return "+call+"\nend\nprint(lazy%d)\n", k, to, k)
+					} else {
+						fmt.Fprintf(&sb, "local dep%d = "+call+"\nprint(dep%d)\n", k, to, k)
+					}
+				}
+				sb.WriteString("local M = { name = \"" + nm + "\" }\nfunction M.f(a) return a end\nreturn M\n")
+				files[strings.ReplaceAll(nm, ".", "/")+".lua"] = sb.String()
+			}
+			entry := r.Pick([]string{"m.lua", "m.lua", "sub/mod.lua", "leaf.lua"})
+			m := map[string]interface{}{"BaseDir": "./", "ProjectFiles": []interface{}{entry}}
+			if r.Bool() {
+				m["ProjectFiles"] = []interface{}{entry, "sub/other.lua"}
+			}
+			b, _ := json.Marshal(m)
+			files["luahelper.json"] = string(b)
+			cs.Label = "entry-file-project"
 		case 0: // init option variants
 			init := map[string]interface{}{"client": r.Pick([]string{"vsc", "", "other"}), "AllEnable": r.Bool(), "LocalRun": r.Bool()}
 			for _, k := range checkFlagNames[1:] {
